@@ -163,7 +163,7 @@ def run(rep, tier, pool, variants=("shipped",)):
     )
     names = sorted(FAMILIES)
     for variant in variants:
-        res = pool.call("harness.props.c18:measure", [(n, sizes_for(n, tier), variant) for n in names], timeout=600)
+        res = pool.call("harness.props.c18:measure", [(n, sizes_for(n, tier), variant) for n in names], timeout=(150 if tier == "quick" else 900))
         for name, o in zip(names, res):
             if "points" not in o:
                 rep.case(name, False)
